@@ -14,7 +14,7 @@ type TS[S comparable] struct {
 	// and before the phis of the successor). ok=false: edge infeasible for this state.
 	Edge func(b *ssa.BasicBlock, k int, s S) (S, bool)
 	// AtReturn is called for every state reaching a Return instruction.
-	AtReturn func(ret *ssa.Return, s S)
+	AtReturn  func(ret *ssa.Return, s S)
 	MaxStates int
 	Overflow  bool
 }
